@@ -5,7 +5,9 @@
 
 struct resp { char *hdr; size_t hdr_len; char *body; size_t body_len; int nranges; };
 /* offsets in the body just behind each part's payload (fragmentation mode "parts") */
-static size_t g_part_ends[4096];
+#define ZH_MAXR 20000
+static size_t g_part_ends[ZH_MAXR];
+static size_t g_starts[ZH_MAXR], g_ends[ZH_MAXR];
 static int g_npart_ends = 0;
 
 static char *slurp(const char *path, size_t *len) {
@@ -34,10 +36,10 @@ static char *slurp(const char *path, size_t *len) {
  * 16 extra part header before Content-Range is omitted (Content-Range first),
  * 32 force multipart even for a single range, 64 a 33-40 KB header field in front of Content-Range in every second part */
 static int build_response(const char *rstr, const char *B, size_t Blen, int style, const char *boundary, struct resp *rp) {
-    size_t starts[4096], ends[4096];
+    size_t *starts = g_starts, *ends = g_ends;
     int n = 0;
     const char *p = rstr;
-    while(*p && n < 4096) {
+    while(*p && n < ZH_MAXR) {
         char *e;
         starts[n] = strtoull(p, &e, 10);
         if(*e != '-') return 0;
@@ -94,7 +96,7 @@ static int build_response(const char *rstr, const char *B, size_t Blen, int styl
         }
         APPEND(rp->body, rp->body_len, bcap, "\r\n", 2);
         APPEND(rp->body, rp->body_len, bcap, B + starts[i], ends[i] - starts[i] + 1);
-        if(g_npart_ends < 4096) g_part_ends[g_npart_ends++] = rp->body_len;
+        if(g_npart_ends < ZH_MAXR) g_part_ends[g_npart_ends++] = rp->body_len;
     }
     k = snprintf(tmp, sizeof(tmp), "\r\n--%s--\r\n", boundary);
     APPEND(rp->body, rp->body_len, bcap, tmp, k);
